@@ -5,6 +5,9 @@
 //   cfg <n>      n = 0..31: option subset (bit0 listen_if_pending_transmit_data, bit1 .._unacknowledged_data,
 //                bit2 .._last_received_not_empty, bit3 .._last_transmitted_not_empty, bit4 .._last_received_had_more_data),
 //                n = 32: listen_always; new object + reset_connection_state()            -> ok
+//   cfg 100|101|102   runtime switchable peripheral_latency_configuration_set<>:
+//                100 = set< ignored, strict_plus >, 101 = set< strict, ignored, default >, 102 = set< strict, strict_plus >
+//   select <k>   change_peripheral_latency< k-th configuration of the set >()                -> ok
 //   reset                                                                               -> <state>
 //   plan <latency> <evbits> <interval> <pending 0|1> <instant>                          -> <state>
 //   timeout <interval>                                                                  -> <state>
@@ -60,6 +63,7 @@ struct state_if
     virtual bool resched( bool ok, delta_time now, delta_time interval, unsigned& calls, int& pulled ) = 0;
     virtual std::string state() const = 0;
     virtual unsigned long long time() const = 0;
+    virtual bool select( unsigned ) { return false; }
 };
 
 template < class State, bool Disarmable >
@@ -105,6 +109,59 @@ struct state_impl : state_if, ll::details::peripheral_latency_state< typename co
     }
 };
 
+// runtime switchable sets; the set always has the disarmable state (last_latency_)
+template < typename... Cs >
+struct set_impl : state_if, ll::details::peripheral_latency_state< ll::peripheral_latency_configuration_set< Cs... > >
+{
+    typedef ll::details::peripheral_latency_state< ll::peripheral_latency_configuration_set< Cs... > > base;
+
+    std::pair< bool, delta_time > disarm_result;
+    unsigned disarm_calls;
+
+    set_impl() : disarm_result( false, delta_time() ), disarm_calls( 0 ) { base::reset_connection_state(); }
+
+    std::pair< bool, delta_time > disarm_connection_event() { ++disarm_calls; return disarm_result; }
+
+    void reset() override { base::reset_connection_state(); }
+    void plan( std::uint16_t latency, ll::connection_event_events e, delta_time interval, std::pair< bool, std::uint16_t > pending ) override
+    {
+        base::plan_next_connection_event( latency, e, interval, pending );
+    }
+    void timeout( delta_time interval ) override { base::plan_next_connection_event_after_timeout( interval ); }
+    bool resched( bool ok, delta_time now, delta_time interval, unsigned& calls, int& pulled ) override
+    {
+        disarm_result = std::make_pair( ok, now );
+        disarm_calls  = 0;
+        const std::uint16_t before = base::connection_event_counter();
+        const bool result = base::reschedule_on_pending_data( *this, interval );
+        calls  = disarm_calls;
+        pulled = static_cast< std::uint16_t >( before - base::connection_event_counter() );
+        return result;
+    }
+    unsigned long long time() const override { return base::time_since_last_event().usec(); }
+    std::string state() const override
+    {
+        return std::to_string( base::current_channel_index() ) + " " + std::to_string( base::connection_event_counter() ) + " "
+             + std::to_string( base::time_since_last_event().usec() ) + " " + std::to_string( this->last_latency_ );
+    }
+
+    template < unsigned K, typename... > struct sel { static bool apply( set_impl&, unsigned ) { return false; } };
+    template < unsigned K, typename C, typename... Rest >
+    struct sel< K, C, Rest... >
+    {
+        static bool apply( set_impl& self, unsigned k )
+        {
+            if ( k == K ) { self.template change_peripheral_latency< C >(); return true; }
+            return sel< K + 1, Rest... >::apply( self, k );
+        }
+    };
+    bool select( unsigned k ) override { return sel< 0, Cs... >::apply( *this, k ); }
+};
+
+typedef set_impl< ll::peripheral_latency_ignored, ll::peripheral_latency_strict_plus > set_100;
+typedef set_impl< ll::peripheral_latency_strict, ll::peripheral_latency_ignored, ll::periperal_latency_default_configuration > set_101;
+typedef set_impl< ll::peripheral_latency_strict, ll::peripheral_latency_strict_plus > set_102;
+
 template < unsigned N >
 struct factory { static state_if* make( unsigned n ) { return n == N ? new state_impl< N > : factory< N - 1 >::make( n ); } };
 template <>
@@ -134,14 +191,18 @@ int main()
             if ( w[ 0 ] == "mul" && a.size() == 2 ) return std::to_string( ( delta_time( a[ 0 ] ) * static_cast< unsigned >( a[ 1 ] ) ).usec() );
             if ( w[ 0 ] == "div" && a.size() == 2 ) return std::to_string( delta_time( a[ 0 ] ) / delta_time( a[ 1 ] ) );
 
-            if ( w[ 0 ] == "cfg" && a.size() == 1 && a[ 0 ] <= 32 )
+            if ( w[ 0 ] == "cfg" && a.size() == 1 && ( a[ 0 ] <= 32 || ( a[ 0 ] >= 100 && a[ 0 ] <= 102 ) ) )
             {
-                st.reset( factory< 32 >::make( a[ 0 ] ) );
+                if ( a[ 0 ] == 100 ) st.reset( new set_100 );
+                else if ( a[ 0 ] == 101 ) st.reset( new set_101 );
+                else if ( a[ 0 ] == 102 ) st.reset( new set_102 );
+                else st.reset( factory< 32 >::make( a[ 0 ] ) );
                 dead = false;
                 last_event_time = 0;
                 return "ok";
             }
             if ( dead || !st ) return "dead";
+            if ( w[ 0 ] == "select" && a.size() == 1 ) return st->select( a[ 0 ] ) ? "ok" : "bad-op";
             if ( w[ 0 ] == "reset" && a.empty() ) { st->reset(); last_event_time = 0; return st->state(); }
             if ( w[ 0 ] == "plan" && a.size() == 5 && a[ 0 ] <= 0xffff && a[ 1 ] < 64 && a[ 3 ] < 2 && a[ 4 ] <= 0xffff )
             {
